@@ -12,7 +12,9 @@ var (
 	// SafeNames are representable as files next to each other (no name is a directory of another).
 	SafeNames = []string{"a", "a.txt", "a-b", "b/c", "b/d.e", "b c", "b/e/f", "ü", "b.c", "b/e/g"}
 	// MemNames additionally mix names and "directories", bytes below '/', and API path fragments.
-	MemNames = []string{"a", "a.txt", "a/b", "a/b/c", "a-b", "a/c", "b", "a b", "ab", "x/o/y", "a%2Fb"}
+	MemNames = []string{"a", "a.txt", "a/b", "a/b/c", "a-b", "a/c", "b", "a b", "ab", "x/o/y", "a%2Fb", LongName}
+	// LongName: 900 bytes, inside the 1024-byte limit of object names (its page token is longer than that)
+	LongName = "a/" + strings.Repeat("n", 898)
 	Payloads = [][]byte{{}, []byte("x"), []byte("hello"), {0, 1, 2, 255, 254, 10, 13}, []byte("0123456789abcdef0123456789")}
 	CTs      = []string{"text/plain", "application/octet-stream", "", "image/png", "application/x-www-form-urlencoded"}
 )
@@ -53,8 +55,8 @@ var Profiles = map[string]Profile{
 	"c09r":   {Name: "c09r", Upload: 30, Resumable: 8, Patch: 12, Delete: 10, Compose: 6, Copy: 8, GetMeta: 5, GetMedia: 5, List: 8, MkBucket: 3, RmBucket: 2, Reopen: 10, GetBucket: 2, CondPct: 20, Names: SafeNames, MinOps: 8, MaxOps: 40, ReadBack: true},
 	"c09p":   {Name: "c09p", Upload: 25, Patch: 12, Delete: 8, Compose: 6, Copy: 8, GetMeta: 10, GetMedia: 10, List: 8, Reopen: 8, Plant: 15, CondPct: 15, Names: SafeNames, MinOps: 8, MaxOps: 40, ReadBack: true},
 	"c10":    {Name: "c10", Upload: 35, Resumable: 5, Patch: 30, Delete: 8, Compose: 6, Copy: 8, GetMeta: 4, GetMedia: 4, List: 4, CondPct: 25, Names: SafeNames[:5], MinOps: 10, MaxOps: 60, ReadBack: true},
-	"c11":    {Name: "c11", Upload: 40, Delete: 8, List: 45, ListBad: 4, RmBucket: 1, CondPct: 0, Names: SafeNames, MinOps: 10, MaxOps: 40},
-	"c11mem": {Name: "c11mem", Upload: 40, Delete: 8, List: 45, ListBad: 4, CondPct: 0, Names: MemNames, MinOps: 10, MaxOps: 40},
+	"c11":    {Name: "c11", Upload: 40, Patch: 10, Delete: 8, List: 45, ListBad: 4, RmBucket: 1, CondPct: 0, Names: SafeNames, MinOps: 10, MaxOps: 40},
+	"c11mem": {Name: "c11mem", Upload: 40, Patch: 6, Delete: 8, List: 45, ListBad: 4, CondPct: 0, Names: MemNames, MinOps: 10, MaxOps: 40},
 	"c15":    {Name: "c15", Upload: 30, Resumable: 8, Compose: 30, Copy: 25, Delete: 5, GetMeta: 3, GetMedia: 5, Patch: 5, CondPct: 15, Names: SafeNames, MinOps: 8, MaxOps: 30, ReadBack: true},
 	"c15mem": {Name: "c15mem", Upload: 30, Resumable: 8, Compose: 30, Copy: 25, Delete: 5, GetMedia: 5, CondPct: 10, Names: MemNames, MinOps: 8, MaxOps: 30, ReadBack: true},
 }
